@@ -36,4 +36,190 @@ def backendsMatch (sameRest : Bool) (add del : List EP) : Bool :=
 def shrinks (sameRest : Bool) (old cur : List EP) : Bool :=
   cur.length ≤ old.length && backendsMatch sameRest cur old
 
+/-! ## The store: several backends, whole histories
+
+`Backends` holds every backend (`items`); an update batch re-creates a subset of them (the converters
+`RemoveAll` the dirty ones and `AcquireBackend` them again, with a new endpoint list that has no empty
+slot) and leaves the others alone (bystanders).  `HAProxyUpdate` then runs `Shrink` (a re-created
+backend that matches the old one is dropped from the change tracker and the old object stays),
+`checkBackendPair` for every remaining pair, reloads iff some pair asks for it or something outside the
+backends changed, and on a reload `alignSlots` pads EVERY item — re-created or not — and flags the
+shard of a padded bystander (`BackendChanged`) so that its file is rewritten. -/
+
+/-- one backend of the store: the M-Dyn part, its `Dynamic` settings and its shard -/
+structure SB where
+  back : Back
+  minFree : Nat
+  block : Nat
+  shard : Nat := 0
+deriving Repr
+
+def SB.slots (b : SB) : Nat := b.back.eps.length
+def SB.free (b : SB) : Nat := (b.back.eps.filter (·.isEmpty)).length
+
+/-- the body of the `alignSlots` loop for one item -/
+def alignSB (b : SB) : SB := { b with back := alignSlots b.back b.minFree b.block }
+
+/-- a backend of the store and its section in the configuration files HAProxy loads -/
+structure Cell where
+  sb : SB
+  file : List EP
+deriving Repr
+
+abbrev Sys := List Cell
+
+/-- one update batch: per backend `none` (bystander) or the re-created endpoint list; `other` = a change
+outside the backends (global, host, …) in the same batch -/
+structure Step where
+  recr : List (Option (List EP))
+  other : Bool := false
+deriving Repr
+
+def Step.at (st : Step) (i : Nat) : Option (List EP) := st.recr.getD i none
+
+/-- the converters never emit a disabled endpoint (`AddEmptyEndpoint` is only called by the updater) -/
+def Step.wf (st : Step) : Bool :=
+  st.recr.all fun r => match r with | none => true | some l => l.all (·.enabled)
+
+/-- `real` = the code; `onlyRecreated` = seeded defect C11e (alignSlots walks `ItemsAdd()`);
+`noFlag` = alignSlots without `BackendChanged` -/
+inductive Variant | real | onlyRecreated | noFlag
+deriving DecidableEq, Repr
+
+/-- a backend in the middle of an update -/
+structure Mid where
+  sb : SB
+  file : List EP
+  ok : Bool            -- the pair does not ask for a reload
+  cmds : List Cmd
+  flag : Bool          -- its shard is flagged changed (still in itemsAdd/itemsDel, or `BackendChanged`)
+  panic : Bool := false
+deriving Repr
+
+/-- Shrink + checkBackendPair for one backend (every command answered OK) -/
+def pairCell (c : Cell) : Option (List EP) → Mid
+  | none => { sb := c.sb, file := c.file, ok := true, cmds := [], flag := false }
+  | some cur =>
+    if shrinks true c.sb.back.eps cur then { sb := c.sb, file := c.file, ok := true, cmds := [], flag := false }
+    else
+      let o := checkBackendPair c.sb.back { c.sb.back with eps := cur } true []
+      { sb := { c.sb with back := { c.sb.back with eps := o.cur } }, file := c.file, ok := o.updated,
+        cmds := o.cmds, flag := true, panic := o.panic }
+
+def pairAll : Sys → List (Option (List EP)) → List Mid
+  | [], _ => []
+  | c :: cs, [] => pairCell c none :: pairAll cs []
+  | c :: cs, r :: rs => pairCell c r :: pairAll cs rs
+
+/-- `alignSlots` for one item of the walk -/
+def alignMid (v : Variant) (m : Mid) : Mid :=
+  if v = .onlyRecreated ∧ m.flag = false then m
+  else
+    let sb := alignSB m.sb
+    { m with sb := sb, flag := m.flag || (decide (v = .real) && sb.slots != m.sb.slots) }
+
+/-- writeConfig: the main file holds every backend; with shards only the flagged shard files are written -/
+def writeCell (sharded wrote : Bool) (flagged : List Nat) (m : Mid) : Cell :=
+  { sb := m.sb, file := if wrote && (!sharded || flagged.contains m.sb.shard) then m.sb.back.eps else m.file }
+
+structure StepOut where
+  reload : Bool
+  mids : List Mid
+  sys : Sys
+deriving Repr
+
+/-- `!dynUpdater.update()`: something outside the backends changed, or some pair asks for a reload -/
+def needReload (s : Sys) (st : Step) : Bool := st.other || !((pairAll s st.recr).all (·.ok))
+
+/-- the backends after `dynUpdater.update()`: `alignSlots` runs iff a reload is needed -/
+def mids (v : Variant) (s : Sys) (st : Step) : List Mid :=
+  if needReload s st then (pairAll s st.recr).map (alignMid v) else pairAll s st.recr
+
+def flaggedShards (ms : List Mid) : List Nat := (ms.filter (·.flag)).map (·.sb.shard)
+
+/-- one `HAProxyUpdate` on committed data -/
+def step (v : Variant) (sharded : Bool) (s : Sys) (st : Step) : StepOut :=
+  let ms := mids v s st
+  { reload := needReload s st, mids := ms,
+    sys := ms.map (writeCell sharded (needReload s st || ms.any (·.flag)) (flaggedShards ms)) }
+
+/-- the first update: nothing is committed, every backend is new: reload, align, write everything -/
+def boot (bs : List SB) : Sys := bs.map fun b => { sb := alignSB b, file := (alignSB b).back.eps }
+
+def runFrom (v : Variant) (sharded : Bool) (s : Sys) (steps : List Step) : Sys :=
+  steps.foldl (fun s st => (step v sharded s st).sys) s
+
+def run (v : Variant) (sharded : Bool) (bs : List SB) (steps : List Step) : Sys := runFrom v sharded (boot bs) steps
+
+/-- slot counts of the store -/
+def slotsOf (s : Sys) : List Nat := s.map (·.sb.slots)
+
+/-- the history with a ghost: the slot counts the last reload left -/
+def runG (v : Variant) (sharded : Bool) (acc : Sys × List Nat) (steps : List Step) : Sys × List Nat :=
+  steps.foldl (fun acc st =>
+    let o := step v sharded acc.1 st
+    (o.sys, if o.reload then slotsOf o.sys else acc.2)) acc
+
+/-- a converter names fresh endpoints srv001.. (sequence naming) -/
+def srvName (i : Nat) : String :=
+  let t := toString (i + 1); "srv" ++ String.ofList (List.replicate (3 - t.length) '0') ++ t
+def fresh (l : List EP) : List EP := (l.zip (List.range l.length)).map fun (e, i) => { e with name := srvName i }
+
+/-! ### Spec on what the implementation did in one step -/
+
+/-- what a `server` line of the configuration file says -/
+def proj (e : EP) : EP := { e with cookie := "", label := "", tref := "", puid := 0 }
+
+/-- the re-created content is the old effective content.  A backend with dynamic scaling pairs the
+endpoints by target: names and order do not matter.  A static backend is rendered in the order given:
+"did not change" means the same endpoints in the same order (a re-ordered static backend is reloaded; the
+code carries a TODO for it — reported, not part of the property). -/
+def sameContent (dyn : Bool) (prev cur : List EP) : Bool :=
+  let r (l : List EP) := (l.filter (·.enabled)).map fun e => { e with name := "" }
+  cur.all (·.enabled) &&
+  (if dyn then (r prev).all ((r cur).contains ·) && (r cur).all ((r prev).contains ·) &&
+      !hasDupTarget prev && !hasDupTarget cur
+   else r prev == r cur)
+
+/-- the Spec allows a reload for this re-created backend -/
+def needsReload (b : SB) (prev cur : List EP) : Bool :=
+  !(sameContent (b.back.dynUpdate && !b.back.resolver) prev cur) &&
+  !(b.back.dynUpdate && !b.back.resolver && !b.back.cookiePreserve && fits prev cur)
+
+structure Obs where
+  reload : Bool
+  mem : List (List EP)
+  file : List (List EP)
+
+/-- post-condition of a reload on the files: every dynamic backend -/
+def reloadPost (cfg : List SB) (o : Obs) : Option String :=
+  (List.range cfg.length).findSome? fun i =>
+    match cfg[i]? with
+    | none => none
+    | some b =>
+      if !b.back.dynUpdate || b.back.resolver then none else
+      let f := o.file.getD i []
+      if (f.filter (·.isEmpty)).length < b.minFree then some "after-reload-min-free"
+      else if !(f.length % blockOf b.block = 0 && 0 < f.length) then some "after-reload-multiple" else none
+
+/-- `first`: the very first update; `prev`: the observation of the step before -/
+def stepOracle (cfg : List SB) (prev : Option Obs) (st : Step) (o : Obs) : Option String :=
+  if o.mem.length ≠ cfg.length ∨ o.file.length ≠ cfg.length then some "unparsable-implementation-output" else
+  if ((List.range cfg.length).any fun i =>
+      match cfg[i]? with
+      | some b => !b.back.resolver && (o.mem.getD i []).map proj != o.file.getD i []
+      | none => false) then some "file-differs-from-model" else
+  match prev with
+  | none => if !o.reload then some "first-update-without-reload" else reloadPost cfg o
+  | some p =>
+    if o.reload then
+      let need := st.other || (List.range cfg.length).any fun i =>
+        match cfg[i]?, st.at i with
+        | some b, some cur => needsReload b (p.mem.getD i []) cur
+        | _, _ => false
+      if !need then some "reload-without-need" else reloadPost cfg o
+    else if ((List.range cfg.length).any fun i => (o.file.getD i []).length != (p.file.getD i []).length) then
+      some "slots-changed-without-reload"
+    else none
+
 end HapVerif.C11
